@@ -8,6 +8,7 @@ GenNext == Next /\ hist' = Append(hist, obs')
 GenSpec == GenInit /\ [][GenNext]_<<vars, hist>>
 View == <<data, data2, lo, hi, ranged, pos, parts>>
 Emit == PrintT(<<"BEHAV", ToJson(hist')>>)
+Bound2 == \A i \in 1..Len(data2) : data2[i] \in {-2, 2, 6}   \* thorough 2-d export: second dimension below/inside/above
 Rng1 == {<<0, 4>>}
 Rng3 == {<<0, 4>>, <<2, 2>>, <<4, 0>>}
 Alpha5 == {-2, 0, 2, 4, 6}
